@@ -39,3 +39,19 @@ var commonTrusted = []string{
 	"Go type checker, go/ssa construction, CHA+VTA call graph of golang.org/x/tools v0.29.0",
 	"no unsafe/cgo in the repository (checked on every run)",
 }
+
+// importRules evaluates the rule set of another property on a sub-context and imports the obligations of the given
+// rules under new rule names (a rule shared between properties is a necessary condition of both).
+func importRules(c *core.Ctx, fromProp string, rename map[string]string) int {
+	rs := Registry[fromProp]
+	if rs == nil {
+		for _, to := range rename {
+			c.Unresolved(to, "rule set "+fromProp, "not registered")
+		}
+		return 0
+	}
+	sub := c.Sub()
+	sub.Prop = fromProp
+	rs.Run(sub)
+	return c.ImportFrom(sub, rename)
+}
